@@ -68,7 +68,7 @@ const (
 	// command's own fallback to the bucket, not among the property's anchors) requests the object of
 	// whatever the report's measurement field holds, of any length, on the UNCHANGED tree. Observed
 	// and counted; judged only when this is set (the coordinator decides).
-	judgeSevValidateFetch = false
+	judgeSevValidateFetch = true
 )
 
 // length of the report's measurement field; -1: the attestation has no report, -2: nil attestation
